@@ -434,6 +434,12 @@ def make_file_pair(rng, fmt, workdir, n=None, pos_cls=None):
         for k in range(1, len(t_est)):
             if t_est[k] <= t_est[k - 1]:
                 t_est[k] = t_est[k - 1] + max(1e-4, 4 * float(np.spacing(t_est[k - 1])))
+    if fmt != "kitti" and dt > 0.05 and n >= 8 and rng.random() < .12:
+        # bursts: three estimate stamps compete for one reference stamp (far / closest / medium,
+        # before and after it); with bursts at every reference stamp the estimate is the longer
+        # trajectory, with bursts at every fourth one the shorter
+        idx = np.repeat(np.arange(0, n, [1, 4, 4][rng.integers(3)]), 3)
+        t_est = ref["t"][idx] + np.tile([[-0.008, -0.001, 0.005], [-0.005, 0.001, 0.008]][rng.integers(2)], len(idx) // 3)
     noise = (0.0 if rng.random() < .1 else 10.0**rng.uniform(-4, -0.5)) * ext
     p = ref["p"][idx] + rng.normal(size=(len(idx), 3)) * noise
     R = np.array([ref["R"][i] @ rm.rodrigues(gen.rand_axis(rng), rng.uniform(0, 0.5)) for i in idx])
@@ -481,6 +487,22 @@ def make_file_pair(rng, fmt, workdir, n=None, pos_cls=None):
             txt = open(pth).read()
             open(pth, "w").write(["# run 3, exported by my_slam\n", "# timestamp tx ty tz qx qy qz qw\n",
                                   "# seq: 'office, night'; \"v2\"\n#\n"][rng.integers(3)] + txt)
+    for pth in (refp, estp):
+        if not pth.endswith("ref.csv") and rng.random() < .1:
+            # a file as other tools print it: 2..5 decimals per value (stamps untouched); every
+            # digit of it counts, also the very last one of the file
+            k = int(rng.integers(2, 6))
+            out = []
+            for ln in open(pth).read().splitlines():
+                tok = ln.split(" ")
+                if ln.startswith("#") or len(tok) not in (8, 12):
+                    out.append(ln)
+                    continue
+                # (TUM: everything but the stamp; KITTI: the translation column - a rounded
+                # rotation block is no rotation any more)
+                cols = range(1, 8) if len(tok) == 8 else (3, 7, 11)
+                out.append(" ".join("%.*f" % (k, float(v)) if c in cols else v for c, v in enumerate(tok)))
+            open(pth, "w").write("\n".join(out) + ("\n" if rng.random() < .5 else ""))
     for pth in (refp, estp):
         if rng.random() < .12:
             # a file whose last line has no line terminator
